@@ -1,0 +1,41 @@
+#pragma once
+
+// Verification hooks for the fiber fault layer. Everything here is compiled only with -DYACLIB_VERIF;
+// without the define this header is empty and the library is unchanged.
+#ifdef YACLIB_VERIF
+
+#  include <cstddef>
+#  include <cstdint>
+
+namespace yaclib::verif {
+
+/**
+ * External owner of every nondeterministic decision of the fault layer.
+ * Installed with SetHook(); nullptr (default) leaves all decisions to the library PRNG.
+ */
+struct Hook {
+  // false: observe only (OnResume is still called), decisions stay with the library PRNG
+  bool choose = true;
+
+  // Injector::NeedInject: yield at this injection point?
+  virtual bool Preempt() = 0;
+  // PollRandomElementFromList: index (0 = oldest) in a list of n >= 1 elements (run queue, notify_one victim)
+  virtual std::size_t Pick(std::size_t n) = 0;
+  // ShouldFailAtomicWeak: fail this compare_exchange_weak spuriously?
+  virtual bool FailWeak() = 0;
+  // every other GetRandNumber(max) call (timer jitter, SharedMutex coin, ...): value in [0, max)
+  virtual std::uint64_t Rand(std::uint64_t max) = 0;
+  // Scheduler::RunLoop: fiber with this id is about to be resumed
+  virtual void OnResume(std::uint64_t fiber_id) = 0;
+
+ protected:
+  ~Hook() = default;
+};
+
+Hook* GetHook() noexcept;
+
+void SetHook(Hook* hook) noexcept;
+
+}  // namespace yaclib::verif
+
+#endif
